@@ -436,7 +436,9 @@ impl Ty {
             Ty::AnonArray { sub_ty, .. }
             | Ty::ConcreteArray { sub_ty, .. }
             | Ty::Slice { sub_ty }
-            | Ty::Optional { sub_ty } => sub_ty.is_unknown() || sub_ty.is_comparable(),
+            | Ty::Optional { sub_ty }
+            // two pointers are compared by what they point to
+            | Ty::Pointer { sub_ty, .. } => sub_ty.is_unknown() || sub_ty.is_comparable(),
             Ty::ErrorUnion {
                 error_ty,
                 payload_ty,
